@@ -196,7 +196,7 @@ def rule_val1(A: Analysis, rep):
     for n in g.nodes:
         if n.kind == "stmt" and isinstance(n.ast, ast.Raise) and n.ast.exc is not None:
             cls = A.exc.exc_class(n.ast.exc)
-            raises.setdefault(cls.rsplit(".", 1)[1] if cls else norm(n.ast.exc), []).append(n)
+            raises.setdefault(cls.rsplit(".", 1)[-1] if cls else norm(n.ast.exc), []).append(n)
     arg = v.params[0]
     ok = "MissingTaskParameter" in raises
     if ok:
@@ -263,7 +263,7 @@ def rule_inc1(A: Analysis, rep):
     for n in g.nodes:
         if n.kind == "stmt" and isinstance(n.ast, ast.Raise) and n.ast.exc is not None:
             cls = A.exc.exc_class(n.ast.exc)
-            raises.setdefault(cls.rsplit(".", 1)[1] if cls else "?", []).append(n)
+            raises.setdefault(cls.rsplit(".", 1)[-1] if cls else "?", []).append(n)
     ext = A.prog.fold_fq("conductor.config.COND_INCLUDE_EXTENSION")
     ok = "IncludeFileInvalidExtension" in raises and A.path_guards(g, g.entry, raises["IncludeFileInvalidExtension"][0], fi) == [frozenset({("t(%s.endswith(COND_INCLUDE_EXTENSION))" % cp, False)})] and ext == ".cond"
     rep.check(ok, "INC1", "only .cond files may be included", fi.node, "", "the extension check changed (extension %r)" % (ext,))
